@@ -29,6 +29,22 @@ CHECKS = {
    technique="stateful property-based testing (rapid): derived accessors recomputed from primary getters after every step of generated parse/setter/resolve/clone histories",
    text="Generated histories biased to alternate IPv4/IPv6/domain hosts, ports 0/default/empty and scheme changes; after every step IsIPv4, IsIPv6, DecodedPort, Scheme/Protocol, Query/Search, Fragment/Hash, OpaquePath and IsSpecialScheme are recomputed from Hostname, Port, Protocol and Href and compared.",
    ref="DESIGN.md §6 C19", note="trusted base: the recomputation in harness/props/c19.go, rapid"),
+ "C06": dict(
+   technique="property-based testing (rapid) of six metamorphic / algebraic resolution laws relating several runs of the implementation (no model)",
+   text="Generated bases of every kind, references conditioned on the base, a second unrelated base, fragment and query texts; the six laws of the statement (three entry points agree, absolute is absolute, empty reference, fragment-only incl. opaque-path bases, query-only, scheme inheritance) are evaluated on every case; the histogram shows law x base kind.",
+   ref="DESIGN.md §6 C06", note="trusted base: the law formulations in harness/props/c06.go, rapid; no reference model involved"),
+ "C07": dict(
+   technique="property-based testing (rapid) with a constructive value oracle (address value drawn first, spellings rendered from it), an independent ends-in-a-number checker and differential comparison with the reference model's host parser",
+   text="IPv4-ish hosts from three generators (value-first, text-first over the critical alphabet, boundary table) in all special schemes and as opaque hosts, through Parse and the host setters. Recognition is decided by an independently written checker, accepted values by the drawn 32-bit value, everything else by the reference model.",
+   ref="DESIGN.md §6 C07", note=MODEL),
+ "C08": dict(
+   technique="property-based testing (rapid) with a constructive value oracle and an independent canonical serializer, differential comparison with the reference model for near-miss texts, exhaustive enumeration of the 256 zero-run shapes",
+   text="IPv6 texts from value-first, text-first and mutation generators inside every bracket arrangement, in special / non-special / file URLs, with and without port, through Parse and the host setters; accept/reject per the standard's IPv6 parser with exactly one bracket pair, output equal to an independent canonical serializer, value preserved, reparse is the identity. The serializer's compression choice is enumerated over all 256 zero/non-zero patterns.",
+   ref="DESIGN.md §6 C08", note=MODEL),
+ "C09": dict(
+   technique="property-based metamorphic testing (rapid): one decoded host rendered in four spellings (case flips, whole-code-point percent-encodings) must give one result; exactness oracle for pure-ASCII hosts",
+   text="Decoded hosts built from ASCII, mapped, ignored, joiner, RTL, fullwidth and ACE labels are written in four spellings and parsed in the six special schemes: all spellings must agree; results must be lowercase ASCII without forbidden domain code points; pure-ASCII non-ACE hosts must be exactly their lowercased form (or C07's result, or rejected for a forbidden code point); file + localhost gives the empty host.",
+   ref="DESIGN.md §6 C09", note="trusted base: the spelling construction in harness/props/c09.go; UTS #46 mapping taken as given; reference model only for the ends-in-a-number sub-case"),
 }
 
 NOT_YET = {}
